@@ -298,6 +298,10 @@ func (p *printer) annotation(n *ref.SNode, level int) {
 	p.w(" ")
 	if len(n.Rules) > 0 {
 		p.ruleObject(n.Rules, multi && p.st.SpreadRules, level)
+		if p.st.BlockInRules > 0 && !multi && (p.br/p.st.BlockInRules)%2 == 1 {
+			// a block comment behind the rule object, in front of the note (if any)
+			p.w(" ### why ###")
+		}
 		if note != "" {
 			p.w(" - ")
 			p.w(note)
